@@ -500,7 +500,7 @@ def check_get_volume(c, unit, result, exc):
 def check_get_concentration(c, solute, units, result, exc):
     cf = R.cfg()
     if units is None:
-        units = 'M'
+        units = cf.concentration_display_unit          # (the documented default of get_concentration)
     try:
         mult, num, den = R.parse_concentration('1 ' + units)
     except R.Reject:
@@ -538,7 +538,7 @@ def check_get_concentration(c, solute, units, result, exc):
         # the stored volume is kept by the operations' own bookkeeping: it follows the contents to one storage quantum of
         # each substance (for a macromolecule 1e-10 umol is 1e-8 uL) and of the volume per operation
         rel += K * (cf.q * (len(c.contents) + 2) * cf.vol_prefix + 3 * H1.storage_noise_in(c.contents, 'L')) / bottom
-    tol = abs(exp_u) * (rel + 1e-9) + K * cf.q
+    tol = abs(exp_u) * (rel + 1e-9) + K * R.conc_quantum(exp_u)        # (the answer carries ten significant digits)
     if not M.ratio('OBS.get_concentration', result, exp_u, tol):
         M.violate(['C10'], 'OBS', f'C10:get_concentration_ne_definition:{num}/{den}',
                   {'units': units, 'solute': solute.name, 'got': result, 'expected': exp_u, 'tol': tol,
@@ -561,7 +561,7 @@ class HGetConcentration(Handler):
     def post(self, ctx, args, kwargs, result, exc):
         pp = PP()
         solute = args[1] if len(args) > 1 else kwargs.get('solute')
-        units = args[2] if len(args) > 2 else kwargs.get('units', 'M')
+        units = args[2] if len(args) > 2 else kwargs.get('units', None)
         if isinstance(solute, pp.Substance) and isinstance(units, str):
             check_get_concentration(args[0], solute, units, result, exc)
 
